@@ -5,18 +5,23 @@
 set -u
 patch="$1"; shift
 export GOFLAGS=-mod=mod GOPROXY=off GOSUMDB=off GOTOOLCHAIN=local
-cd /repo || exit 2
-if ! git diff --quiet; then echo "/repo is dirty"; exit 2; fi
+# VERIF_HOME / VERIF_REPO: an isolated copy of the framework and its own worktree of the library (tools/isolate.sh);
+# default: /verif and /repo themselves
+V="${VERIF_HOME:-/verif}"; R="${VERIF_REPO:-/repo}"; export VERIF_REPO="$R"
+cd "$R" || exit 2
+if ! git diff --quiet; then echo "$R is dirty"; exit 2; fi
 git apply "$patch" || { echo "patch does not apply"; exit 2; }
 # evidence files written while /repo is mutated must not survive: keep the clean-tree ones
-rm -rf /tmp/mutcheck.evidence && cp -r /verif/evidence /tmp/mutcheck.evidence
-trap 'git -C /repo checkout -- . ; git -C /repo clean -fdq; rm -rf /verif/evidence; mv /tmp/mutcheck.evidence /verif/evidence' EXIT
-if go build ./... 2>/tmp/mutcheck.build.log && go test -vet=off -count=1 ./... >/tmp/mutcheck.test.log 2>&1; then
+EV=/tmp/mutcheck.evidence.$$
+rm -rf $EV && cp -r "$V/evidence" $EV
+trap 'git -C "$R" checkout -- . ; git -C "$R" clean -fdq; rm -rf "$V/evidence"; mv $EV "$V/evidence"' EXIT
+if go build ./... 2>/tmp/mutcheck.build.$$.log && go test -vet=off -count=1 ./... >/tmp/mutcheck.test.$$.log 2>&1; then
   echo "build+tests: ok"
 else
-  echo "build+tests: FAIL (see /tmp/mutcheck.*.log)"; tail -5 /tmp/mutcheck.test.log
+  echo "build+tests: FAIL"; tail -5 /tmp/mutcheck.test.$$.log
 fi
-cd /verif
+rm -f /tmp/mutcheck.build.$$.log /tmp/mutcheck.test.$$.log
+cd "$V"
 for p in "$@"; do
   out=$(bin/check "$p" 2>&1); rc=$?
   echo "$p exit=$rc $(echo "$out" | grep -E 'VIOLATION|KNOWN' | head -2 | tr '\n' ' ')"
